@@ -97,6 +97,8 @@ c15!(c15_aspect_b3, 3, Aspect);
 c15!(c15_bounds_b5, 5, Bounds);
 // @h c15_bounds_b7 | prop=C15 | tier=thorough | t=5400 | mem=12 | enc=CropBox::fit_src_into_dst_size, CroppedSrcImageView::crop | bounds=symbolic: sizes 1..=7, centering any non-NaN f64 pair; no loops
 c15!(c15_bounds_b7, 7, Bounds);
+// @h c15_bounds_b31 | prop=C15 | tier=thorough | t=5400 | mem=14 | enc=CropBox::fit_src_into_dst_size, CroppedSrcImageView::crop | bounds=symbolic: sizes 1..=31, centering any non-NaN f64 pair; no loops
+c15!(c15_bounds_b31, 31, Bounds);
 // @h c15_centering_b5 | prop=C15 | tier=thorough | t=3600 | mem=10 | enc=CropBox::fit_src_into_dst_size | bounds=symbolic: sizes 1..=5, centering pair from the 8-value table; no loops
 c15!(c15_centering_b5, 5, Centering);
 // @h c15_aspect_b5 | prop=C15 | tier=thorough | t=3600 | mem=10 | enc=CropBox::fit_src_into_dst_size | bounds=symbolic: sizes 1..=5; no loops
